@@ -262,12 +262,12 @@ def run(ctx):
   ctx.count("family_docs", len(family))
 
   pool = ThreadPoolExecutor(max_workers=1)
-  design = pool.submit(design_check, deep, [0, 10, 30] if deep else [10])
+  design = pool.submit(design_check, deep, [0, 30] if deep else [10])
 
-  # spec -> code: every family document; 6 of the 24 configurations per document (thorough) or 2 (quick), rotating so that
+  # spec -> code: every family document; 4 of the 24 configurations per document (thorough) or 2 (quick), rotating so that
   # every configuration meets every sub-family
   tasks = []
-  ncfg = 6 if deep else 2
+  ncfg = 4 if deep else 2
   for k, adoc in enumerate(family):
     for j in range(ncfg):
       tasks.append((adoc, ALL_CFGS[(k * 5 + j * 7) % len(ALL_CFGS)], "family"))
@@ -275,7 +275,7 @@ def run(ctx):
   ctx.count("family_cases", nfam)
 
   # code -> spec: seeded random richer documents
-  nrand = 6000 if deep else 500
+  nrand = 4000 if deep else 500
   for _ in range(nrand):
     adoc = LD.random_doc(ctx.rng)
     c = {"sa": ctx.rng.choice([0, 5, 10, 17, 30]), "pta": ctx.rng.random() < 0.5,
@@ -305,7 +305,7 @@ def run(ctx):
   some = next((r for r in recs if r["kind"] == "family" and len(r["before"]["regions"]) == 2 and not r["raised"]), recs[0])
   ctx.sample({"kind": some["kind"], "cfg": some["cfg"], "regions_before": [r["id"] for r in some["before"]["regions"]],
               "regions_after": some["after"]["regions"], "visible_before": some["visb"][:4]})
-  ctx.exhaustive = deep
+  ctx.exhaustive = False       # every family document, but a rotating subset of the 24 configurations per document
   ctx.assume("how the resulting display alignment of a region is chosen is not part of C16 (the spec takes it as a parameter "
              "and only requires it to be stable)")
   ctx.assume("the preserved text alignment is the specified/inherited (non-animated) alignment of the paragraph before the filter")
